@@ -289,6 +289,54 @@ pub fn run(ctx: &mut Ctx) {
         }
     });
 
+    // an entry whose inner lengths (extensions, signature) run past the entry's own declared length by exactly 2^16
+    // (or by 1, 2, 255, 256, 65535, 65537), with enough data behind it: the entry is malformed, never an SCT
+    ctx.floor("single-wrap.cases", 100);
+    ctx.sweep("single-inner-lengths-wrap", 64, |ctx, idx| {
+        let mut r = Rng::new(idx ^ 0x3A9);
+        let excess = [65536usize, 65536, 1, 2, 255, 256, 65535, 65537][(idx % 8) as usize];
+        let e = 47 + r.usize(0, 6000);                   // declared entry length
+        let inner_total = e + excess - 47;               // extensions + signature bytes announced inside
+        if inner_total > 2 * 65535 {
+            return;
+        }
+        let ext_len = if inner_total > 65535 { r.usize(inner_total - 65535, 65535) } else { r.usize(0, inner_total) };
+        let sig_len = inner_total - ext_len;
+        let mut input = vec![(e >> 8) as u8, e as u8, (idx % 3) as u8];
+        input.extend(r.bytes(32));
+        input.extend(r.bytes(8));
+        input.extend_from_slice(&[(ext_len >> 8) as u8, ext_len as u8]);
+        input.extend(std::iter::repeat(0x11).take(ext_len));
+        input.extend_from_slice(&[4, 3, (sig_len >> 8) as u8, sig_len as u8]);
+        input.extend(std::iter::repeat(0x22).take(sig_len));
+        input.extend(std::iter::repeat(0x33).take(300));
+        for parser in 0..2 {
+            let got = ctx.guarded("sct parser", &input[..60], || {
+                if parser == 0 {
+                    let r = parse_ct_signed_certificate_timestamp(&input);
+                    (classify(&r), r.is_ok())
+                } else {
+                    // the same entry as the only element of a list whose declared length is the entry's (2 + e)
+                    let mut l = vec![((e + 2) >> 8) as u8, (e + 2) as u8];
+                    l.extend_from_slice(&input);
+                    let r = parse_ct_signed_certificate_timestamp_list(&l);
+                    (classify(&r), matches!(&r, Ok((_, v)) if !v.is_empty()))
+                }
+            });
+            if let Some((out, yielded)) = got {
+                ctx.eval();
+                ctx.count("single-wrap.cases");
+                ctx.shape(&("single-wrap", parser, excess, out.class()));
+                if yielded {
+                    ctx.violation(
+                        format!("c14:{}:inner-lengths-exceed-entry-yet-an-sct-is-returned", if parser == 0 { "single" } else { "list" }),
+                        json!({"declared_entry_length": e, "extensions_len": ext_len, "signature_len": sig_len, "excess_over_entry": excess, "outcome": out.show(), "input_hex": hex_short(&input)}),
+                    );
+                }
+            }
+        }
+    });
+
     // a valid SCT list wrapped the way other formats carry it (DER OCTET STRING as in X.509 / OCSP extensions,
     // an extra u8 / u16 / u24 length prefix, a TLS extension header): read as a bare list the first two bytes
     // are a declared length; when that exceeds the input no SCT may come back, whatever the rest looks like
